@@ -62,6 +62,7 @@ PROPS = {
     "C03": dict(
         gens=[tlc("c02"), tlc("c04"), rand("stream_ascii", 600, "quick"), rand("stream_ascii", 30000, "thorough")],
         tv_props=["C03"],
+        mc=[dict(module="MC_K1.tla", cfg="MC_K1"), dict(module="MC_K1.tla", cfg="MC_K1_same", expect="SameAnswer")],
         must_fire=["C03.map_equals_stream_columns", "C03.map_equals_stream_lines", "C03.none_iff_no_mapped_chunk"],
         rule="as C02; every map() answer is resolved at every byte position and compared with the covering chunk of the "
              "normal-mode stream of the same object; non-trivial = composite tree with a mapped leaf",
